@@ -270,6 +270,18 @@ Definition create_file (pr : proc) (o : lopts) (p : list bytes) (m : meta) (xs :
   dof s2 <- set_permissions o p m xs s1;
   set_times p m s2.
 
+(* NOT the code: a variant of CreateFile that keeps a regular file which is already there and lets
+   O_TRUNC empty it (RemoveAll only for other kinds of objects).  It exists to state what the
+   unconditional RemoveAll is good for: see create_file_reuse_refuted. *)
+Definition create_file_reuse (pr : proc) (o : lopts) (p : list bytes) (m : meta) (xs : list (bytes * bytes)) (data : bytes) (s : fnode) : fres fnode :=
+  dof s0 <- (match lstat p s with
+             | Some (FFile _ _) => FOk s
+             | _ => remove_all p s
+             end);
+  dof s1 <- create_write pr p 438 data s0;
+  dof s2 <- set_permissions o p m xs s1;
+  set_times p m s2.
+
 (* unlink errors other than "does not exist" are returned *)
 Definition unlink_if_there (p : list bytes) (s : fnode) : fres fnode :=
   match unlink p s with
